@@ -840,3 +840,50 @@ mutant(
     "RESUME-ALL-1",
     (PLAN, "    for output in dag.successors(name):\n        target = nodes[output].get(\"target\", None)\n        if target is not None:\n            try:", "    for output in list(dag.successors(name))[:1]:\n        target = nodes[output].get(\"target\", None)\n        if target is not None:\n            try:"),
 )
+# seeded round 2 (C10-3, C11-4, C18-4, C20-3, C20-4): clauses added / registered because of them
+UTILS_F = "cubed/utils.py"
+mutant(
+    "M134-skip-node-when-consumers-computed",
+    ["C07", "C09", "C10"],
+    "BARRIER-SRC-1",
+    (PIPE, "    return nodes[name].get(\"computed\", False)", "    if nodes[name].get(\"computed\", False):\n        return True\n    readers = [op for out in dag.successors(name) for op in dag.successors(out)]\n    return bool(readers) and all(nodes[op].get(\"computed\", False) for op in readers)"),
+)
+mutant(
+    "M135-primitive-wraps-task-iterable-in-map",
+    ["C13", "C11"],
+    "COUNT-1",
+    (PBW, "    mappable = output_blocks if output_blocks is not None else ChunkKeys(chunks_normal)", "    mappable = map(list, output_blocks) if output_blocks is not None else ChunkKeys(chunks_normal)"),
+)
+benign(
+    "B-primitive-mappable-if-statement",
+    ["C13", "C11"],
+    (PBW, "    mappable = output_blocks if output_blocks is not None else ChunkKeys(chunks_normal)", "    if output_blocks is not None:\n        mappable = output_blocks\n    else:\n        mappable = ChunkKeys(chunks_normal)"),
+)
+mutant(
+    "M136-bytes-rounded-before-integrality-test",
+    ["C18"],
+    "BYTES-1",
+    (UTILS_F, "        size = float(value) * unit_factor\n", "        size = float(round(float(value) * unit_factor))\n"),
+)
+benign(
+    "B-bytes-product-in-two-steps",
+    ["C18"],
+    (UTILS_F, "        size = float(value) * unit_factor\n", "        number = float(value)\n        size = number * unit_factor\n"),
+)
+mutant(
+    "M137-spec-eq-compares-instance-dicts",
+    ["C18", "C19", "C20"],
+    "SPEC-EQ-1",
+    (SPECPY, "            return (\n                self.work_dir == other.work_dir\n                and self.intermediate_store == other.intermediate_store\n                and self.allowed_mem == other.allowed_mem\n                and self.reserved_mem == other.reserved_mem\n                and self.executor == other.executor\n                and self.storage_options == other.storage_options\n                and self.zarr_compressor == other.zarr_compressor\n            )", "            return self.__dict__ == other.__dict__"),
+)
+mutant(
+    "M138-resume-verdict-remembered-on-node",
+    ["C09", "C10", "C20"],
+    "RESUME-PURE-1",
+    (PLAN, "                if target.ndim == 0 or target.nchunks_initialized != target.nchunks:\n                    return False\n", "                if target.ndim == 0 or target.nchunks_initialized != target.nchunks:\n                    return False\n                nodes[output][\"complete\"] = True\n"),
+)
+benign(
+    "B-resume-local-bookkeeping",
+    ["C09", "C10", "C20"],
+    (PLAN, "    for output in dag.successors(name):\n        target = nodes[output].get(\"target\", None)\n        if target is not None:\n            try:", "    checked = []\n    for output in dag.successors(name):\n        target = nodes[output].get(\"target\", None)\n        checked.append(output)\n        if target is not None:\n            try:"),
+)
